@@ -46,6 +46,14 @@ def judge(sh, p, r, case):
             detail.update(ctx)
             detail.update({"line": int(m.group(1)), "col": int(m.group(2)), "text": p.text().split("\n")[int(m.group(1)) - 1]})
             sig = ("fatal", "Unrecognized line", ctx.get("line_kind"))
+        if r.outcome == "fatal" and not m:
+            # a fatal diagnostic without a position: if the file holds a statement of the F-60 shape (cut at its first
+            # comma, the rest becomes unbalanced text), that statement is the structure the finding is keyed on
+            from nv.findings import f60_shape
+            for l in p.lines:
+                if l.kind == "stmt" and f60_shape([tuple(x) for x in l.segs]):
+                    detail.update({"segs": [list(x) for x in l.segs], "text": l.text(), "line_kind": "stmt"})
+                    break
         sh.violation("not_analysed", sig, case, detail)
         return False
     ok = True
